@@ -584,6 +584,9 @@ func (w *World) Apply(st *Step) (obs *StepObs) {
 	st.Hosts = dedupHosts(st.Hosts)
 	st.Backs = dedupBacks(st.Backs)
 	w.expandDirty(st)
+	if st.Full {
+		w.syncCertFiles(st)
+	}
 	cfg := w.Inst.Config()
 	first := w.nstep == 0
 	obs.First = first
@@ -882,7 +885,38 @@ func (w *World) expandDirty(st *Step) {
 			}
 		}
 	}
+	w.syncCertFiles(st)
 	sort.SliceStable(st.Hosts, func(i, j int) bool { return st.Hosts[i].Name < st.Hosts[j].Name })
+}
+
+// syncCertFiles keeps one content per certificate file: a file is one Secret, so a new content
+// reaches every host that uses it (the tracker marks all of them dirty). The content of the last
+// host of the step that names the file wins; hosts of the world on that file join the step.
+func (w *World) syncCertFiles(st *Step) {
+	content := map[string]string{}
+	for _, h := range st.Hosts {
+		if h.Crt != "" {
+			content[h.Crt] = h.Content
+		}
+	}
+	inStep := map[string]bool{}
+	for i := range st.Hosts {
+		h := &st.Hosts[i]
+		inStep[h.Name] = true
+		if h.Crt != "" {
+			h.Content = content[h.Crt]
+		}
+	}
+	for _, n := range st.DelHosts {
+		inStep[n] = true
+	}
+	for _, n := range sortedKeys(w.hosts) {
+		x := w.hosts[n]
+		if c, ok := content[x.Crt]; ok && x.Crt != "" && !inStep[n] && x.Content != c {
+			x.Content = c
+			st.Hosts = append(st.Hosts, x)
+		}
+	}
 }
 
 // cfgSignature identifies the version of the *.cfg files on disk.
